@@ -242,6 +242,75 @@ def run(ctx):
                     work.append(prog.functions[n["fk"]])
         r.check(read == {"kind"}, "BuildValue::%s|kind-only" % pred, "", "predicate reads %s" % sorted(read), f)
 
+    # ---- which kinds carry which payload: the factories against the three `kindHas…` predicates the coder is guarded by
+    rk = rep.rule("R-KIND-PAYLOAD", "every BuildValue factory that is given a payload (signature, output infos, string list) creates a kind for which the "
+                                    "predicate guarding that payload in toData() and in the decoding constructor is true — otherwise the payload is silently "
+                                    "left out of the encoding and distinct values encode alike", floor=8)
+
+    def kind_pred(f, K, depth=0):
+        """truth of the kind-only predicate f for kind K (None if it is not a boolean combination of kind tests)."""
+        rets = [n for n in f.nodes if n.get("k") == "return" and "e" in n]
+        if len(rets) != 1 or depth > 4:
+            return None
+
+        def ev(n):
+            n = core(n)
+            if n is None:
+                return None
+            k = n.get("k")
+            if k == "bool":
+                return bool(n.get("v"))
+            if k == "un" and n.get("op") == "!":
+                v = ev(n.child("e"))
+                return None if v is None else not v
+            if k == "bin" and n.get("op") in ("||", "&&"):
+                a, b = ev(n.child("l")), ev(n.child("r"))
+                if n["op"] == "||":
+                    return True if (a is True or b is True) else (None if (a is None or b is None) else False)
+                return False if (a is False or b is False) else (None if (a is None or b is None) else True)
+            if k == "bin" and n.get("op") in ("==", "!="):
+                l, r_ = expr_str(core(n.child("l"))), expr_str(core(n.child("r")))
+                if r_.split("->")[-1] == "kind":
+                    l, r_ = r_, l
+                if l.split("->")[-1] == "kind" and r_.split("::")[-1] in KINDS:
+                    eq = r_.split("::")[-1] == K
+                    return eq if n["op"] == "==" else not eq
+                return None
+            if k == "call" and n.get("fk") in prog.functions and "BuildValue::" in (n.get("fn") or "") and not n.get("args"):
+                return kind_pred(prog.functions[n["fk"]], K, depth + 1)
+            return None
+        return ev(rets[0].child("e"))
+
+    KINDS = set(x["n"] for x in prog.enum("buildsystem::BuildValue::Kind")["enumerators"])
+    PAYLOAD = (("CommandSignature", "kindHasSignature"), ("FileInfo", "kindHasOutputInfo"), ("basic_string", "kindHasStringList"), ("std::string", "kindHasStringList"))
+    n_fact = 0
+    for f in sorted(prog.fns_in_class("buildsystem::BuildValue") if hasattr(prog, "fns_in_class") else
+                    [g for g in prog.functions.values() if qmatch(g.cls or "", "buildsystem::BuildValue") and not g.is_lambda], key=lambda g: g.name):
+        short = f.name.split("::")[-1]
+        if not short.startswith("make"):
+            continue
+        cons = [n for n in f.nodes if n.get("k") == "construct" and (n.get("fn") or "").endswith("BuildValue::BuildValue") and n.get("args")]
+        cons = [n for n in cons if expr_str(core(arg_nodes(n)[0])).split("::")[-1] in KINDS and "Kind" in f.db_types[(n.get("pt") or [0])[0]]]
+        if len(cons) != 1:
+            continue
+        n_fact += 1
+        K = expr_str(core(arg_nodes(cons[0])[0])).split("::")[-1]
+        pts = [f.db_types[p_["t"]] for p_ in f.params]        # what the factory itself is given (the constructor's defaulted parameters do not count)
+        needs = []
+        for t in pts:
+            for frag, pred in PAYLOAD:
+                if frag in t and pred not in needs:
+                    needs.append(pred)
+        for pred in needs:
+            v = kind_pred(prog.fn("BuildValue::" + pred), K)
+            if v is None:
+                raise AnalysisBroken("BuildValue::%s is not a boolean combination of kind tests" % pred)
+            rk.check(v, "%s|%s" % (short, pred), "kind %s" % K, "%s passes a payload guarded by %s(), which is false for kind %s: the payload is never encoded" % (short, pred, K), f, cons[0])
+        if not needs:
+            rk.ok("%s|no-payload" % short, "kind %s" % K, f)
+    if n_fact < 15:
+        raise AnalysisBroken("only %d BuildValue factories found" % n_fact)
+
     r = rep.rule("R-KEY-LAYOUT", "the composite key layout [kind:1][nameSize:4][name][payload] written by the three-argument constructor and the "
                                  "offsets used by the accessors agree (as linear expressions in nameSize)", floor=6)
     ctors = [f for f in prog.fns("BuildKey::BuildKey") if len(f.params) == 3]
@@ -480,4 +549,10 @@ VARIANTS = [
          expect=("R-CODEC-SHAPE", "StringList")),
     dict(name="benign-timestamp-locals", file="include/llbuild/Basic/FileInfo.h",
          old="    coder.read(value.seconds);\n    coder.read(value.nanoseconds);", new="    auto& s = value.seconds;\n    coder.read(s);\n    coder.read(value.nanoseconds);", expect=None),
+    dict(name="structure-signature-kind-out-of-payload-predicate", file="include/llbuild/BuildSystem/BuildValue.h", old="    return isDirectoryTreeSignature() || isDirectoryTreeStructureSignature() ||\n        kind == Kind::SuccessfulCommandWithOutputSignature;",
+         new="    return isDirectoryTreeSignature() ||\n        kind == Kind::SuccessfulCommandWithOutputSignature;", expect=("R-KIND-PAYLOAD", "makeDirectoryTreeStructureSignature")),
+    dict(name="filtered-contents-out-of-string-list-predicate", file="include/llbuild/BuildSystem/BuildValue.h", old="    return isDirectoryContents() || isFilteredDirectoryContents() || isStaleFileRemoval();",
+         new="    return isDirectoryContents() || isStaleFileRemoval();", expect=("R-KIND-PAYLOAD", "makeFilteredDirectoryContents")),
+    dict(name="benign-payload-predicate-by-kind-compare", file="include/llbuild/BuildSystem/BuildValue.h", old="    return isDirectoryTreeSignature() || isDirectoryTreeStructureSignature() ||\n        kind == Kind::SuccessfulCommandWithOutputSignature;",
+         new="    return kind == Kind::DirectoryTreeSignature || kind == Kind::DirectoryTreeStructureSignature ||\n        kind == Kind::SuccessfulCommandWithOutputSignature;", expect=None),
 ]
